@@ -217,7 +217,7 @@ func c09Decode(c *explore.C, tier universe.Tier) {
 		}
 		named := false
 		for _, n := range dv.Exp.Missing {
-			if strings.Contains(pe.Error(), `"`+n+`"`) {
+			if namesField(pe.Error(), n) {
 				named = true
 			}
 		}
@@ -282,7 +282,8 @@ func c09Many(c *explore.C, tier universe.Tier) {
 	if !dv.Exp.OK && dv.Exp.Err == ref.ERequired {
 		named := false
 		for _, nm := range dv.Exp.Missing {
-			if strings.Contains(dv.Res.Err.Error(), `"`+nm+`"`) {
+			var pe2 *gthrift.ProtocolException
+			if errors.As(dv.Res.Err, &pe2) && namesField(pe2.Error(), nm) {
 				named = true
 			}
 		}
@@ -377,4 +378,23 @@ func c09Encode(c *explore.C, tier universe.Tier) {
 	}
 	harness.Cur.Count("required_headers_checked", int64(checked))
 	harness.Cur.Outcome(harness.Hash64(buf[:r.N], []byte(outer.String())), pos)
+}
+
+// namesField: the message mentions the Go field name as a whole word (however it is quoted).
+func namesField(msg, name string) bool {
+	for i := 0; i+len(name) <= len(msg); i++ {
+		if msg[i:i+len(name)] != name {
+			continue
+		}
+		before := i == 0 || !isWordByte(msg[i-1])
+		after := i+len(name) == len(msg) || !isWordByte(msg[i+len(name)])
+		if before && after {
+			return true
+		}
+	}
+	return false
+}
+
+func isWordByte(b byte) bool {
+	return b == '_' || b >= '0' && b <= '9' || b >= 'a' && b <= 'z' || b >= 'A' && b <= 'Z'
 }
